@@ -284,7 +284,16 @@ fn check_malformed(line: &Line, acc: &mut Acc) {
                 match &items[1] {
                     Ok(r) => Err(format!("parsed as a record: {:?}", r)),
                     Err(e) => {
-                        if e.line().strip_suffix(b"\n").or(e.line().strip_suffix(b"\r")).unwrap_or(e.line()) == &bad[..] {
+                        // "carrying the offending line": the line itself, with or without its terminator (LF, CR or CRLF)
+                        let mut carried = e.line();
+                        while let Some((&c, rest)) = carried.split_last() {
+                            if c == b'\n' || c == b'\r' {
+                                carried = rest;
+                            } else {
+                                break;
+                            }
+                        }
+                        if carried == &bad[..] {
                             Ok(())
                         } else {
                             Err(format!("error carries {:?}", esc(e.line())))
